@@ -227,6 +227,11 @@ impl Scenario for C06 {
         broker.s2c_lat_min_ns = 1_000;
         broker.s2c_lat_max_ns = 1_000;
         broker.eof_after_server_close = true;
+        // streams that end with the server closing the socket: in half of the runs the end of stream arrives in
+        // the same instant as the last segment (FIN on the last data segment), otherwise one gap later
+        if st.then_eof && cs.choose("eof_with_last_segment", 2) == 1 {
+            broker.raw_eof_with_last_segment = true;
+        }
         if mode == 4 {
             broker.glue_after_open_ok = Some((preamble(), spec.params.get(1).copied().unwrap_or(0) as usize, GAP));
         }
@@ -332,6 +337,7 @@ impl Scenario for C06 {
         if mode == 4 {
             rep.count("c06.glued_to_open_ok", 1);
         }
+        rep.count("c06.eof_with_last_segment", gen.broker.raw_eof_with_last_segment as u64);
         let inside = cuts.iter().any(|c| !st.boundaries.contains(c)) || mode == 4;
         rep.count("c06.cut_inside_frame", inside as u64);
         rep.count(&format!("c06.ending.{}", st.ending.split(':').next().unwrap_or("")), 1);
